@@ -53,6 +53,8 @@ package redis
 //@   prop C18
 //@   alsoprop C11 : no-panic
 //@   modifies nothing
+//@   onlycalls (*Set).Healthy
+//@   callpre Healthy @scan-enumerates-the-cached-list-of-usable-hosts-of-this-upstream arg0 == u.hosts
 //@   ensures @members-non-nil forall k int :: 0 <= k && k < len(result) ==> result[k] != nil
 
 //@ func newScanRequest
@@ -319,6 +321,7 @@ package redis
 //@   ensures @text-does-not-alias-the-read-buffer result1 == nil ==> disjoint(result0, d.br.buf)
 //@   ensures @text-is-the-next-line-without-its-terminator result1 == nil ==> rpos(d.br) == old(rpos(d.br)) + len(result0) + 2 && stream[src(d.br)][old(rpos(d.br)) + len(result0)] == 13 && stream[src(d.br)][old(rpos(d.br)) + len(result0) + 1] == 10 && forall k int :: 0 <= k && k < len(result0) ==> result0[k] == stream[src(d.br)][old(rpos(d.br)) + k]
 //@   ensures @text-has-no-line-feed result1 == nil ==> forall k int :: 0 <= k && k < len(result0) ==> result0[k] != 10
+//@   proves @ret:2 @a-line-is-refused-only-when-it-does-not-end-in-crlf-an-empty-text-is-fine len(b) < 2 || b[len(b) - 2] != 13
 //@   ensures @slab-only-shrinks-or-is-new fresh(d.br.slice.buf) || (within(d.br.slice.buf, old(d.br.slice.buf)) && withincap(d.br.slice.buf, old(d.br.slice.buf)))
 
 //@ func (*decoder).decodeBulkString
@@ -343,7 +346,7 @@ package redis
 //@   ensures @ri d.br == old(d.br) && decoderOK(d)
 //@   ensures @bounded result1 == nil ==> len(result0) <= 1048576
 //@   proves @null-only-for-a-header-of-minus-one-otherwise-as-many-elements-as-the-header-says result1 == nil ==> (isnil(result0) == (n == 0 - 1)) && (n >= 0 ==> len(result0) == n)
-//@   alsoprop C03 : null-only-for-a-header-of-minus-one-otherwise-as-many-elements-as-the-header-says
+//@   alsoprop C03 C18 C02 : null-only-for-a-header-of-minus-one-otherwise-as-many-elements-as-the-header-says
 //@   loop 0 invariant d.br == old(d.br) && decoderOK(d) && len(array) == n && n <= 1048576 && d.depth == old(d.depth) + 1 && d.depth <= 32
 //@   loop 0 invariant fresh(array) && (fresh(d.br.slice.buf) || (within(d.br.slice.buf, old(d.br.slice.buf)) && withincap(d.br.slice.buf, old(d.br.slice.buf))))
 //@   ensures @slab-only-shrinks-or-is-new fresh(d.br.slice.buf) || (within(d.br.slice.buf, old(d.br.slice.buf)) && withincap(d.br.slice.buf, old(d.br.slice.buf)))
@@ -625,6 +628,8 @@ package redis
 
 //@ func parseClusterNodesSlot
 //@   prop C11
+//@   proves @ret:3 @a-slot-range-is-refused-only-when-out-of-bounds-or-out-of-order start < 0 || end >= 16384 || start > end
+//@   alsoprop C12 C07 C04 C14 : a-slot-range-is-refused-only-when-out-of-bounds-or-out-of-order
 //@   flag bound-alloc check-overflow
 //@   modifies nothing
 //@   loop 0 invariant cap(slots) == 0 || fresh(slots)
@@ -760,6 +765,7 @@ package redis
 
 //@ func (*compressFilter).Compress
 //@   prop C13 C11
+//@   alsoprop C04 : already-compressed-skipped
 //@   requires f != nil && cfg != nil && resp != nil
 //@   requires @values-disjoint forall j int, k int :: 0 <= j && j < k && k < len(resp.Array) ==> disjoint(resp.Array[j].Text, resp.Array[k].Text)
 //@   modifies heap("RespValue.Text"), heap("[]uint8"), buflen, cpslen
@@ -853,6 +859,8 @@ package redis
 //@ func (*upstream).Serve
 //@   prop C09
 //@   alsoprop C11 : no-panic
+//@   flag track-locks
+//@   callpre loadClients @the-clients-to-stop-are-read-under-the-table-lock-so-a-connect-in-flight-is-seen held(u.clientsMu)
 //@   requires u != nil && u.done != nil && !closed(u.done)
 //@   established @before:loadClients newUpstream,(*upstream).updateClients upstream.clients @published clientsok(u)
 //@   modifies all
